@@ -137,7 +137,7 @@ func c04nLayout(r *simkit.R, u *zz.Universe, n, epoch int) map[int]c04nExtra {
 	chains := 0
 	if n >= 8 {
 		chains = r.Intn(2)
-		if n >= 12 {
+		if n >= 10 {
 			chains = r.Intn(3)
 		}
 	}
@@ -284,6 +284,10 @@ func c04nDrawQuery(r *simkit.R, present map[string][]string) ([]c04nFilter, []st
 		var key string
 		if i > 0 && r.Bool(25) {
 			key = fs[0].key
+		} else if i == 0 && r.Bool(30) {
+			// primary attributes whose index form differs from their text form
+			hard := []string{object.FilterOwnerID, object.FilterPayloadChecksum, object.FilterSplitID, object.FilterFirstSplitObject, object.FilterParentID, object.AttributeAssociatedObject}
+			key = hard[r.Intn(len(hard))]
 		} else if r.Bool(50) {
 			key = c04nUserKeys[r.Intn(len(c04nUserKeys))]
 		} else {
